@@ -141,6 +141,12 @@ def model_checks(tier):
             for i, ch in enumerate(chunks)]
 
 
+def damaged(tree, depth):
+    if depth <= 0:
+        return {'b': tree['b'][:1], 'r': []}
+    return {'b': tree['b'], 'r': [damaged(r, depth - 1) for r in tree['r']]}
+
+
 def generate(tier, seed, ctx):
     out = []
     for name in sorted(ctx['mc']):
@@ -155,6 +161,14 @@ def generate(tier, seed, ctx):
                         tlbkit.scramble_object(CLS[ty].deserialize(tlbkit.tree_to_cell(case['enc']).begin_parse()))
                     except Exception:
                         pass
+                if len(out) % 2 == 0:
+                    # malformed input in between: the same encoding with everything two references down cut to a single bit (the
+                    # parse fails somewhere inside a nested value); what a rejected input leaves behind has no bearing on the next parse
+                    for dmg in (2, 1):
+                        try:
+                            CLS[ty].deserialize(tlbkit.tree_to_cell(damaged(case['enc'], dmg)).begin_parse())
+                        except Exception:
+                            pass
                 obj = CLS[ty].deserialize(s)
                 rec['rem'] = {'bits': s.remaining_bits, 'refs': s.remaining_refs}
                 if ty == 'Message' and any(l['k'] == 'Cell' and l['path'] == ['body'] for l in case['flat']):
